@@ -274,4 +274,107 @@ theorem runActs_reach {strict : Bool} {s0 : State} : ∀ (acts : List (Nat × Ki
     · simp at hr
     · rename_i s1 hs; exact ih s1 s' (Reach.step pid k h hs) hr
 
+/-! ### errors reported by the director model -/
+
+/-- the context of search `i` is done -/
+def doneAt (s : State) (i : Nat) : Prop := ∃ p, s.procs[i]? = some p ∧ p.done = true
+
+theorem procStep_done (strict fI fB : Bool) (p p' : Proc) (k : Kind) (e : Eff)
+    (h : procStep strict fI fB p k = some (p', e)) (hd : p.done = true) : p'.done = true := by
+  obtain ⟨loc, sem, done, expired, yielded, released, grants, rels, errs⟩ := p
+  cases k <;> cases loc <;> rcases sem with _ | (_ | _) <;> simp [procStep] at h <;>
+    (first
+      | (obtain ⟨rfl, rfl⟩ := h)
+      | (obtain ⟨hg, rfl, rfl⟩ := h)) <;>
+    simp_all
+
+theorem applyEff_procs (s : State) (e : Eff) : (s.applyEff e).procs = s.procs := by
+  rcases e with _ | (_ | _) | (_ | _) <;> simp only [State.applyEff] <;> (try split) <;> rfl
+
+theorem step_doneAt {strict : Bool} {s s' : State} {pid : Nat} {k : Kind} (hs : step strict s pid k = some s')
+    (i : Nat) (h : doneAt s i) : doneAt s' i := by
+  obtain ⟨_, hlt, p', e, hstep, rfl⟩ := step_some hs
+  obtain ⟨p, hp, hd⟩ := h
+  unfold doneAt
+  rw [applyEff_procs]
+  by_cases hi : i = pid
+  · subst hi
+    have : s.procs[i] = p := by
+      have := List.getElem?_eq_getElem hlt
+      rw [this] at hp; exact Option.some.inj hp
+    rw [this] at hstep
+    exact ⟨p', by simp [hlt], procStep_done _ _ _ _ _ _ _ hstep hd⟩
+  · exact ⟨p, by rw [List.getElem?_set_ne (fun h => hi h.symm)]; exact hp, hd⟩
+
+theorem do1_doneAt (s : State) (pid : Nat) (k : Kind) (i : Nat) (h : doneAt s i) : doneAt (do1 s pid k) i := by
+  unfold do1
+  split
+  · rename_i s' hs; exact step_doneAt hs i h
+  · exact h
+
+theorem do1_cancel_doneAt (s : State) (pid : Nat) (hp : s.panicked = false) (hlt : pid < s.procs.length) :
+    doneAt (do1 s pid .cancel) pid := by
+  unfold do1 step
+  simp only [hp, Bool.false_eq_true, ↓reduceIte, List.getElem?_eq_getElem hlt, procStep, State.applyEff]
+  exact ⟨{ s.procs[pid] with done := true }, by simp [hlt], rfl⟩
+
+theorem notifyAux_doneAt (x : Sem) (i : Nat) : ∀ (q : List Nat) (s : State), doneAt s i → doneAt (notifyAux x s q).1 i := by
+  intro q
+  induction q with
+  | nil => intro s h; exact h
+  | cons hd t ih =>
+    intro s h
+    unfold notifyAux
+    split
+    · exact ih _ (do1_doneAt _ _ _ _ (do1_doneAt _ _ _ _ h))
+    · exact h
+
+theorem notifyAux_woke_ok (x : Sem) : ∀ (q : List Nat) (s : State), ∀ w ∈ (notifyAux x s q).2.2, w.2 = .ok := by
+  intro q
+  induction q with
+  | nil => intro s w hw; simp [notifyAux] at hw
+  | cons hd t ih =>
+    intro s w hw
+    unfold notifyAux at hw
+    split at hw
+    · simp only [List.mem_cons] at hw
+      rcases hw with rfl | hw
+      · rfl
+      · exact ih _ w hw
+    · simp at hw
+
+theorem notify_doneAt (d : DState) (x : Sem) (i : Nat) (h : doneAt d.st i) : doneAt (notify d x).1.st i := by
+  unfold notify
+  simp only [setQ_st]
+  exact notifyAux_doneAt x i _ _ h
+
+theorem notify_woke_ok (d : DState) (x : Sem) : ∀ w ∈ (notify d x).2, w.2 = .ok := by
+  unfold notify
+  exact notifyAux_woke_ok x _ _
+
+theorem semAcquire_doneAt (d : DState) (x : Sem) (pid i : Nat) (h : doneAt d.st i) :
+    doneAt (semAcquire d x pid).1.st i := by
+  unfold semAcquire
+  split
+  · exact h
+  · split
+    · exact do1_doneAt _ _ _ _ h
+    · split
+      · exact do1_doneAt _ _ _ _ (do1_doneAt _ _ _ _ h)
+      · simpa [setQ_st] using h
+
+theorem semAcquire_err (d : DState) (x : Sem) (pid : Nat) (h : (semAcquire d x pid).2 = .err) :
+    doneAt (semAcquire d x pid).1.st pid := by
+  unfold semAcquire at h ⊢
+  split
+  · rename_i hn; simp [hn] at h
+  · rename_i p hp
+    simp only [hp] at h
+    split
+    · rename_i hd
+      exact do1_doneAt _ _ _ _ ⟨p, hp, hd⟩
+    · rename_i hd
+      simp only [hd, Bool.false_eq_true, ↓reduceIte] at h
+      split at h <;> cases h
+
 end ZoektModel.C20
